@@ -787,4 +787,15 @@ theorem C20_sections_collide_clean :
   ⟨⟨[0x61], [0x62], [], [0x63]⟩, [0x61, 0x2f, 0x62, 0x2f, 0x2f, 0x63],
     ⟨by simp, by simp, by simp, by simp⟩, by simp [LtFree],
     by simpa [slash] using C20_sections_collide ⟨[0x61], [0x62], [], [0x63]⟩⟩
+
+/-- **Fields are not delimited from their values** (same XEP-0115 weakness inside a form): a
+field `a` with the values `b`, `c` is written as the same bytes as the field `a` with the value
+`b` followed by a field `c` without value — all strings `<`-free, both forms with the same
+proper `FORM_TYPE`.  So the form section is not injective; the per-section results above are as
+far as collision freedom goes for this string. -/
+theorem C20_fields_collide :
+    verImpl ⟨[], [], [⟨[⟨formTypeVar, [[0x74]]⟩, ⟨[0x61], [[0x62], [0x63]]⟩]⟩]⟩ =
+    verImpl ⟨[], [], [⟨[⟨formTypeVar, [[0x74]]⟩, ⟨[0x61], [[0x62]]⟩, ⟨[0x63], []⟩]⟩]⟩ := by
+  simp [verImpl, mergeSort_pair, fieldLe, Form.formType, formTypeVar, lexLe, renderForm,
+    Form.dataFields, renderField, sortStrings, renderFeat, lt]
 end XmppModel.Props.C20
